@@ -69,9 +69,7 @@ def Reads (t : List Row) (f a : String) : Prop := ∃ r ∈ t, r.attr = a ∧ f 
 def Known.leaks : List Row := [
   ⟨"Domain", "dim", true, true, ["dom_grad", "dom_form"]⟩,
   ⟨"ScalarFunctionSpace", "dim", true, true, ["sp_grad"]⟩,
-  ⟨"ScalarFunction", "dim", true, true, ["fn_terminal"]⟩,
-  ⟨"DifferentialForm", "dim", true, true, ["form_hodge"]⟩,
-  ⟨"DifferentialForm", "index", true, true, ["form_hodge"]⟩
+  ⟨"ScalarFunction", "dim", true, true, ["fn_terminal"]⟩
 ]
 
 end Memo
